@@ -12,7 +12,7 @@ vars == <<state, c>>
 Init == state = "start" /\ c = Cfg0
 
 Ip6ExtSets == {<<>>, <<"hbh">>, <<"dst">>, <<"route">>, <<"frag">>, <<"auth">>, <<"route", "fdst">>, <<"hbh", "dst", "route", "frag", "auth", "fdst">>, <<"dst", "frag">>, <<"hbh", "auth">>}
-SmallLens == {0, 1, 2, 3, 7, 8, 9, 64}
+SmallLens == {0, 1, 2, 3, 7, 8, 9, 13, 64}     \* 13 = one 8 byte limb + one 4 byte limb + odd tail; the driver fills it with carry-critical words
 
 Link == \/ state = "start" /\ state' = "eth" /\ c' = [c EXCEPT !.link = "eth"]
         \/ state = "start" /\ state' = "sll" /\ c' = [c EXCEPT !.link = "sll"]
